@@ -316,6 +316,9 @@ func (m *Machine) callBuiltin(caller *frame, fn *ssa.Builtin, args []Value) Valu
 	case "recover":
 		return m.doRecover(caller)
 
+	case "ssa:deferstack":
+		return caller // the defer stack of the calling frame
+
 	case "ssa:wrapnilchk":
 		if isNilPtr(args[0]) {
 			m.goPanicf("value method %s.%s called using nil pointer", describe(args[1], 0), describe(args[2], 0))
